@@ -275,6 +275,58 @@ def _s1_lookup_symbol(program, res):
         res.fail_at("C26-S1", f, "rule:NAME tokens bypass lookup_symbol", "NAME tokens are no longer resolved through lookup_symbol")
 
 
+def _s1_use_and_produce(program, res):
+    """parse_assignments_in_context: the set of columns used by *other* assignments only ever grows; the
+    'a column may update itself' exemption removes the produced key from that assignment's own uses only"""
+    f = program.func("expr_parse", "parse_assignments_in_context")
+    g = cfgmod.build(f.node)
+    d = depsmod.Deps(g, f.params())
+    # the accumulator is the variable intersected with the produced keys in the raising guard
+    acc = None
+    for r in g.raises():
+        for (b, _l) in g.lexical_guards(r):
+            names = {n.id for n in ast.walk(b.cond) if isinstance(n, ast.Name)}
+            for n in g.stmt_nodes(("stmt",)):
+                st = n.stmt
+                if isinstance(st, ast.Assign) and isinstance(st.targets[0], ast.Name) and st.targets[0].id in names \
+                        and any(isinstance(c, ast.Call) and isinstance(c.func, ast.Attribute) and c.func.attr == "intersection" for c in ast.walk(st.value)):
+                    call = [c for c in ast.walk(st.value) if isinstance(c, ast.Call) and isinstance(c.func, ast.Attribute) and c.func.attr == "intersection"][0]
+                    cands = [x.id for x in ast.walk(call) if isinstance(x, ast.Name)]
+                    for c in cands:
+                        if c not in f.params() and any(isinstance(a.stmt, ast.Assign) and isinstance(a.stmt.targets[0], ast.Name)
+                                                       and a.stmt.targets[0].id == c for a in g.stmt_nodes(("stmt",))):
+                            acc = c
+    if acc is None:
+        raise AnalysisError("parse_assignments_in_context: accumulator of used columns not found")
+    updates = [n for n in g.stmt_nodes(("stmt",)) if isinstance(n.stmt, ast.Assign) and isinstance(n.stmt.targets[0], ast.Name)
+               and n.stmt.targets[0].id == acc and any(isinstance(b.stmt, ast.For) for b, _l in g.lexical_guards(n))]
+    if not updates:
+        raise AnalysisError(f"parse_assignments_in_context: `{acc}` is never updated inside the loop over the assignments")
+    for n in updates:
+        bad = None
+        for sub in ast.walk(n.stmt.value):
+            left = None
+            if isinstance(sub, ast.BinOp) and isinstance(sub.op, ast.Sub):
+                left = sub.left
+            elif isinstance(sub, ast.Call) and isinstance(sub.func, ast.Attribute) and sub.func.attr in ("difference", "intersection"):
+                left = sub.func.value
+            elif isinstance(sub, ast.BinOp) and isinstance(sub.op, ast.BitAnd):
+                left = sub.left
+            if left is not None and any(isinstance(x, ast.Name) and x.id == acc for x in ast.walk(left)):
+                bad = sub
+        uses_acc = any(isinstance(x, ast.Name) and x.id == acc for x in ast.walk(n.stmt.value))
+        if bad is not None:
+            res.fail_at("C26-S1", f, "rule:use and produce in the same step (accumulator shrinks)",
+                        f"`{unparse(n.stmt)[:90]}` removes elements from the accumulated set of used columns (`{unparse(bad)[:60]}`): "
+                        f"a column used by an earlier assignment and produced by a later one of the same step is forgotten and the "
+                        f"step is accepted", n.stmt)
+        elif not uses_acc:
+            res.fail_at("C26-S1", f, "rule:use and produce in the same step (accumulator reset)",
+                        f"`{unparse(n.stmt)[:90]}` overwrites the accumulated set of used columns instead of extending it", n.stmt)
+        else:
+            res.ok("C26-S1", f"use-and-produce: `{acc}` only grows across the assignments of a step (own key removed from the own uses only)")
+
+
 def _s2(program, model, res):
     covered = {cls for (_r, m, cls, fn, _req, _d) in ROWS if fn == "__init__"}
     for k in model.kinds.values():
@@ -324,6 +376,7 @@ def run(program, res, tier):
     model = NodeModel(program)
     _s1(program, res)
     _s1_lookup_symbol(program, res)
+    _s1_use_and_produce(program, res)
     _s2(program, model, res)
     c06._s3_s4(program, model, res, s3="C26-S3", s4="C26-S3")
     _unraised_exceptions(program, res)
